@@ -374,6 +374,7 @@ var algos = []algo{
 	{"http://www.w3.org/2001/04/xmlenc#aes256-cbc", false},
 	{"http://www.w3.org/2009/xmlenc11#aes128-gcm", false},
 	{"urn:example:unknown-cipher", false},
+	{epubw.NoEncryptionMethod, false},
 }
 
 type item struct {
